@@ -1,7 +1,7 @@
 #!/bin/bash
 # usage: recheck_benign.sh [id ...]  — re-run the stored benign patches (all by default), print those that alarm
 cd /verif/benign || exit 2
-ids="$@"; [ -z "$ids" ] && ids=$(ls)
+ids="$@"; [ -z "$ids" ] && ids=$(ls -d */ | tr -d /)
 for id in $ids; do
   f=/verif/benign/$id/patch.diff
   git -C /repo apply --check "$f" 2>/dev/null || { echo "$id: does not apply"; continue; }
